@@ -26,6 +26,12 @@ def same_result(kind, a, b, tol=1e-7):
         if ea and eb and type(a) is type(b):
             return None
         return f"exception mismatch: {type(a).__name__ if ea else 'value'} vs {type(b).__name__ if eb else 'value'}"
+    if kind in ("obj", "poly") and (isinstance(a, (list, tuple)) or isinstance(b, (list, tuple))):
+        if not (isinstance(a, (list, tuple)) and isinstance(b, (list, tuple))):
+            return "one result is a list, the other is not"
+        kind = "objs" if kind == "obj" else "polys"
+    if kind in ("obj", "poly") and not (hasattr(a, "array") and hasattr(b, "array")):
+        return None if (not hasattr(a, "array") and not hasattr(b, "array") and np.array_equal(np.asarray(a), np.asarray(b))) else "result kinds differ"
     if kind == "bool":
         return None if np.array_equal(np.asarray(a), np.asarray(b)) else "predicate differs"
     if kind == "num":
@@ -34,7 +40,7 @@ def same_result(kind, a, b, tol=1e-7):
         x, y = np.atleast_1d(np.asarray(a)), np.atleast_1d(np.asarray(b))
         if x.shape != y.shape:
             return "shape differs"
-        return None if all(angle_eq_mod_pi(p, q, tol) for p, q in zip(x.ravel(), y.ravel())) else "angle differs (mod pi)"
+        return None if all((np.isnan(p) and np.isnan(q)) or angle_eq_mod_pi(p, q, tol) for p, q in zip(x.ravel(), y.ravel())) else "angle differs (mod pi)"
     if kind == "arr":
         return None if arr_eq(np.asarray(a, dtype=complex), np.asarray(b, dtype=complex), tol, tol) else "array differs"
     if kind == "obj":
